@@ -1,0 +1,105 @@
+//go:build verif
+
+package querylog
+
+// Contracts for govc (see /verif/DESIGN.md).  Comment-only file.
+
+//@ import filter github.com/AdguardTeam/AdGuardDNS/internal/filter
+//@ import bytes bytes
+//@ import json encoding/json
+//@ import os os
+//@ import io io
+//@ import rand golang.org/x/exp/rand
+
+//@ immutable FileSystem.*, entryBuffer.*
+
+// ---------------------------------------------------------------------------
+// C15: the result codes of doc/querylog.md and one intact line per entry.
+
+//@ pred knownResult(r filter.Result) = r == nil || isptr(r, filter.ResultAllowed) || isptr(r, filter.ResultBlocked) ||
+//@      isptr(r, filter.ResultModifiedResponse) || isptr(r, filter.ResultModifiedRequest)
+
+//@ func toResultCode
+//@   property C15
+//@   requires knownResult(r)
+//@   ensures documented-codes: (r == nil ==> c == 1) &&
+//@             (isptr(r, filter.ResultAllowed) ==> c == (resp ? 5 : 4)) &&
+//@             (isptr(r, filter.ResultBlocked) ==> c == (resp ? 3 : 2)) &&
+//@             (isptr(r, filter.ResultModifiedResponse) || isptr(r, filter.ResultModifiedRequest) ==> c == 6)
+
+//@ interface filter.Result method MatchedRule
+//@   modifies nothing
+
+//@ func resultData
+//@   property C15
+//@   requires knownResult(req) && knownResult(resp)
+//@   ensures request-verdict-first: req != nil ==> c == (isptr(req, filter.ResultAllowed) ? 4 : (isptr(req, filter.ResultBlocked) ? 2 :
+//@             (isptr(req, filter.ResultModifiedResponse) || isptr(req, filter.ResultModifiedRequest) ? 6 : c)))
+//@   ensures req == nil && resp == nil ==> c == 1
+//@   ensures response-verdict-second: req == nil && resp != nil ==> c == (isptr(resp, filter.ResultAllowed) ? 5 : (isptr(resp, filter.ResultBlocked) ? 3 : 6))
+
+//@ func (*FileSystem).convertElapsed
+//@   property C15
+//@   requires l.logger != nil
+//@   ensures saturating-milliseconds: elapsedMs == (msOf(elapsed) < 0 ? 0 : (msOf(elapsed) > 4294967295 ? 4294967295 : msOf(elapsed)))
+
+// The buffer, the encoder and the file, in ghost state: bufObjs[b] is the
+// number of encoded JSON objects (lines) waiting in buffer b; fileWrites and
+// linesAppended count the write calls on log files and the lines they carried.
+//@ ghost bufObjs map[*bytes.Buffer]int
+//@ ghost encTarget map[*json.Encoder]*bytes.Buffer
+//@ ghost fileWrites int
+//@ ghost linesAppended int
+//@ func (*bytes.Buffer).Reset
+//@   modifies bufObjs[b]
+//@   ensures bufObjs[b] == 0
+//@ func json.NewEncoder
+//@   modifies encTarget
+//@   ensures result != nil && (isptr(w, bytes.Buffer) ==> encTarget[result] == asptr(w, bytes.Buffer))
+// The fields of the object most recently handed to an encoder.
+//@ ghost encName string
+//@ ghost encType uint16
+//@ ghost encRcode uint16
+//@ ghost encCode int
+//@ ghost encRule string
+//@ ghost encList string
+//@ ghost encProto int
+//@ ghost encProfile string
+//@ ghost encHasIP bool
+//@ func (*json.Encoder).Encode
+//@   params enc, v
+//@   modifies bufObjs[encTarget[enc]], encName, encType, encRcode, encCode, encRule, encList, encProto, encProfile, encHasIP
+//@   ensures isptr(v, jsonlEntry) ==> encName == asptr(v, jsonlEntry).DomainFQDN && encType == asptr(v, jsonlEntry).RequestType &&
+//@             encRcode == asptr(v, jsonlEntry).ResponseCode && encCode == asptr(v, jsonlEntry).ResultCode &&
+//@             encRule == asptr(v, jsonlEntry).FilterRule && encList == asptr(v, jsonlEntry).FilterListID &&
+//@             encProto == asptr(v, jsonlEntry).Protocol && encProfile == asptr(v, jsonlEntry).ProfileID &&
+//@             encHasIP == (asptr(v, jsonlEntry).RemoteIP != nil)
+//@   ensures result == nil ==> bufObjs[encTarget[enc]] == old(bufObjs[encTarget[enc]]) + 1
+//@   ensures result != nil ==> bufObjs[encTarget[enc]] == old(bufObjs[encTarget[enc]])
+// Buffer.WriteTo hands the whole content to the writer in one Write call when
+// the writer accepts it (bytes/buffer.go).
+//@ func (*bytes.Buffer).WriteTo
+//@   modifies bufObjs[b], fileWrites, linesAppended
+//@   ensures err == nil ==> fileWrites == old(fileWrites) + 1 && linesAppended == old(linesAppended) + old(bufObjs[b]) && bufObjs[b] == 0
+//@   ensures err != nil ==> fileWrites <= old(fileWrites) + 1
+//@ func os.OpenFile
+//@   modifies nothing
+//@   ensures r1 == nil ==> r0 != nil
+//@ func (*os.File).Close
+//@   modifies nothing
+//@ pure (*rand.Rand).Uint32
+
+//@ func (*FileSystem).Write
+//@   property C15
+//@   requires l.logger != nil && l.bufferPool != nil && l.rng != nil && e != nil && knownResult(e.RequestResult) && knownResult(e.ResponseResult)
+//@   requires forall eb *entryBuffer :: eb != nil ==> eb.ent != nil && eb.buf != nil
+//@   modifies bufObjs, encTarget, fileWrites, linesAppended, jsonlEntry.*, allcells(netip.Addr), encName, encType, encRcode, encCode, encRule, encList, encProto, encProfile, encHasIP
+//@   ensures own-request: err == nil ==> encName == e.DomainFQDN && encType == e.RequestType && encRcode == e.ResponseCode &&
+//@             encProto == e.Protocol && encProfile == e.ProfileID
+//@   ensures own-verdict: err == nil ==> (e.RequestResult == nil && e.ResponseResult == nil ==> encCode == 1) &&
+//@             (isptr(e.RequestResult, filter.ResultBlocked) ==> encCode == 2) && (isptr(e.RequestResult, filter.ResultAllowed) ==> encCode == 4) &&
+//@             (e.RequestResult == nil && isptr(e.ResponseResult, filter.ResultBlocked) ==> encCode == 3) &&
+//@             (e.RequestResult == nil && isptr(e.ResponseResult, filter.ResultAllowed) ==> encCode == 5)
+//@   ensures ip-only-when-set: err == nil ==> (encHasIP <==> e.RemoteIP != zero(netip.Addr))
+//@   ensures one-line-per-entry: err == nil ==> fileWrites == old(fileWrites) + 1 && linesAppended == old(linesAppended) + 1
+//@   ensures never-more-than-one-write: fileWrites <= old(fileWrites) + 1
